@@ -257,11 +257,17 @@ func (m *Message) Nacked() <-chan struct{} {
 }
 
 // Clone returns a cloned message with the same content but separate ack and
-// nack handling.
+// nack handling. The clone keeps the source ID and the filtered flag: a record
+// that a processor filtered out before a fan-out must stay filtered in every
+// destination branch (the destination node skips filtered messages and the
+// destination acker acks them at the head of its queue), otherwise it would be
+// written to every destination of a pipeline with more than one destination.
 func (m *Message) Clone() *Message {
 	return &Message{
-		Ctx:    m.Ctx,
-		Record: m.Record.Clone(),
+		Ctx:      m.Ctx,
+		Record:   m.Record.Clone(),
+		SourceID: m.SourceID,
+		filtered: m.filtered,
 	}
 }
 
